@@ -238,7 +238,7 @@ func runC10(cfg lib.Cfg) error {
 		}
 		add(d, g, "random", maxWords)
 	}
-	totalRuns, maxHeap := 0, uint64(0)
+	totalRuns, shardRuns, maxHeap := 0, 0, uint64(0)
 	kinds := map[string]int{}
 	var extractor *abi.Extractor
 	// process runs the plans on the implementation (child process), applies the
@@ -321,6 +321,9 @@ func runC10(cfg lib.Cfg) error {
 						}
 					}
 					totalRuns++
+					if !extraOnly {
+						shardRuns++
+					}
 					kinds[m.Kind]++
 					descs = append(descs, m.String())
 					if jr == nil {
@@ -434,6 +437,7 @@ func runC10(cfg lib.Cfg) error {
 		out.Dist["input-"+k] = v
 	}
 	out.Notes["scans"] = totalRuns
+	out.Notes["scans_in_vm_compute_shards"] = shardRuns
 	out.Notes["max_bytes_allocated_by_one_call"] = maxHeap
 	out.Notes["streams"] = "per declaration one valid encoding, then: every truncation length (encodings <= 512 bytes; else each 32-byte boundary and +-1); every offset/length/count word replaced by the boundary values relative to the sub-slice the decoder reads it against (layout known from the harness encoder); every 32-byte word replaced by each of 0,1,31,32,len-31,len,len+1,2^31,2^32,2^63-32,2^63-1,2^63,2^64-32,2^64-1,2^255 (exhaustive per encoding); random bytes, word soups and low-byte flips; all through one reused Result in a child process (2 s watchdog per call, 768 MiB heap limit)"
 	return out.Flush()
